@@ -62,15 +62,22 @@ TOPOLOGIES = ["lsn", "usn", "cdn", "ldn", "udn", "ldn_upper_outer_start", "udn_u
 
 
 class FakePsiVals:
-    """Stand-in for a psi_vals array of symbolic length 2*nx+1 (only sliced, never read)."""
+    """Stand-in for a psi_vals array of symbolic length 2*nx+1: slices are descriptors, single
+    entries are symbolic reals (one per segment and index; `entry(k)` gives the same symbol)."""
 
-    def __init__(self, n, tag):
-        self.n, self.tag = n, tag
+    def __init__(self, n, tag, ctx=None, store=None):
+        self.n, self.tag, self.ctx = n, tag, ctx
+        self.store = {} if store is None else store
+
+    def entry(self, k):
+        if k not in self.store:
+            self.store[k] = self.ctx.real("psi_vals[%s][%d]" % (self.tag, k)) if self.ctx is not None else 1.05
+        return self.store[k]
 
     def __getitem__(self, k):
         if isinstance(k, int):
-            return 1.05  # first gridded surface beyond both separatrices (connected double null guard)
-        return FakePsiVals(("slice", self.n, k.start, k.stop), self.tag)
+            return self.entry(k)
+        return FakePsiVals(("slice", self.n, k.start, k.stop), self.tag, self.ctx, self.store)
 
 
 def build_equilibrium(ctx, topo, psi_pf=(0.9, 0.9), size_prefix=""):
@@ -140,7 +147,7 @@ def build_equilibrium(ctx, topo, psi_pf=(0.9, 0.9), size_prefix=""):
         out = {}
         for name, seg in segments.items():
             s = dict(seg)
-            s["psi_vals"] = FakePsiVals(seg["nx"], name)
+            s["psi_vals"] = FakePsiVals(seg["nx"], name, ctx)
             out[name] = s
         return out
 
